@@ -514,7 +514,7 @@ func (s *c13hSrv) step(kind string, prevFailed bool) (v *c13hViol, harness strin
 			classes = append(classes, "valid-after-valid")
 		}
 		start, lastSig, sent := time.Now(), time.Now(), 1
-		for {
+		for polls := 0; ; polls++ {
 			set, key, msg := s.register("dual")
 			if key != "" {
 				v, h := s.judge("after a valid reload step", key, msg)
@@ -534,14 +534,16 @@ func (s *c13hSrv) step(kind string, prevFailed bool) (v *c13hViol, harness strin
 				// cannot happen with monotonic set numbers unless a stale file was loaded
 				return &c13hViol{"sighup:unexpected-set", fmt.Sprintf("after a valid reload step to set %d (from set %d) a registration is answered from set %d", want, old, set)}, "", classes
 			}
-			if time.Since(start) > c13hPatience && sent >= 4 && refusedNow && s.mayLag.Load() {
+			// patience is time AND work (a thousand registrations of this loop answered meanwhile): a
+			// machine too busy to run the registrar never produces a verdict
+			if time.Since(start) > c13hPatience && sent >= 4 && polls >= 1000 && refusedNow && s.mayLag.Load() {
 				// clients of the newest generation tell whether the subnets were reloaded
 				if cs, ck, _ := s.registerGen("dual", s.curGen.Load()); ck == "" && cs == want {
 					return &c13hViol{"sighup:outdated-clients-refused", fmt.Sprintf("generation %d was rolled out and the older generations retired from the subnet file: the reload has completed (a generation-%d client is answered from the new set %d), but after %d SIGHUPs over %v clients on an older generation are still refused with HTTP 500 - the new ClientConf was never republished to the registrar, which therefore does not move them to the new generation. Registrar log tail: %q",
 						s.curGen.Load(), s.curGen.Load(), want, sent, time.Since(start).Round(time.Second), s.logs.tail(300))}, "", classes
 				}
 			}
-			if time.Since(start) > c13hPatience && sent >= 4 {
+			if time.Since(start) > c13hPatience && sent >= 4 && polls >= 1000 {
 				return &c13hViol{"sighup:reload-never-completed", fmt.Sprintf("all files are valid and the phantom subnet file holds set %d, but after %d SIGHUPs over %v (process otherwise idle) registrations are still answered from set %d: the reload never completes. Registrar log tail: %q",
 					want, sent, time.Since(start).Round(time.Second), set, s.logs.tail(300))}, "", classes
 			}
